@@ -22,8 +22,10 @@ VARIABLES st,      \* specification state of the current scenario
           l,       \* next trace line
           scen,    \* id of the current scenario
           poisoned,
-          nmis     \* number of mismatching scenarios so far
-vars == <<st, l, scen, poisoned, nmis>>
+          nmis,    \* number of mismatching scenarios so far
+          cnt      \* what was actually compared: [facet |-> number of comparisons], plus "#reset" (scenarios
+                   \* begun) and "#skipped" (lines not judged because their scenario was poisoned)
+vars == <<st, l, scen, poisoned, nmis, cnt>>
 
 HasObs(ev, f) == "obs" \in DOMAIN ev /\ f \in DOMAIN ev.obs
 HasRes(ev, f) == HasObs(ev, "res") /\ f \in DOMAIN ev.obs.res
@@ -67,9 +69,17 @@ Explain(f, s, ns, ev) ==
 \* say, a structurally wrong render does not hide a later render that differs from its first time).
 StateFacets == {"grid", "drows", "text", "errs", "props", "res.cblog", "res.panic", "obspanic"}
 
-Init == /\ st = InitState /\ l = 1 /\ scen = "" /\ poisoned = FALSE /\ nmis = 0
+Init == /\ st = InitState /\ l = 1 /\ scen = "" /\ poisoned = FALSE /\ nmis = 0 /\ cnt = <<>>
 
-Done(n) == CSVWrite("%1$s", <<ToJson([done |-> TRUE, lines |-> Len(Trace), mismatches |-> n])>>, MisFile)
+\* the facets of a line that are compared with the specification: every logged observation, and every
+\* logged field of the call's result
+Compared(ev) ==
+  IF "obs" \notin DOMAIN ev THEN {}
+  ELSE ((DOMAIN ev.obs) \ {"res"}) \cup
+       (IF "res" \in DOMAIN ev.obs THEN {"res." \o k : k \in DOMAIN ev.obs.res} ELSE {})
+Bump(c, fs) == [f \in (DOMAIN c) \cup fs |-> (IF f \in DOMAIN c THEN c[f] ELSE 0) + (IF f \in fs THEN 1 ELSE 0)]
+
+Done(n, c) == CSVWrite("%1$s", <<ToJson([done |-> TRUE, lines |-> Len(Trace), mismatches |-> n, compared |-> c])>>, MisFile)
 
 Next ==
   /\ l <= Len(Trace)
@@ -83,20 +93,23 @@ Next ==
                               ELSE <<>>,
                       !.defdec = IF "defdec" \in DOMAIN ev.op THEN ev.op.defdec ELSE <<>>]
           /\ scen' = ev.op.id /\ poisoned' = FALSE /\ nmis' = nmis
-          /\ (l < Len(Trace) \/ Done(nmis))
+          /\ cnt' = Bump(cnt, {"#reset"})
+          /\ (l < Len(Trace) \/ Done(nmis, cnt'))
      ELSE IF poisoned
      THEN /\ UNCHANGED <<st, scen, poisoned, nmis>>
-          /\ (l < Len(Trace) \/ Done(nmis))
+          /\ cnt' = Bump(cnt, {"#skipped"})
+          /\ (l < Len(Trace) \/ Done(nmis, cnt'))
      ELSE LET ns  == Apply(st, ev.op, FiredOf(st, ev))
               bad == IF "obs" \in DOMAIN ev THEN BadFacets(st, ns, ev) ELSE {}
           IN /\ st' = ns
              /\ scen' = scen
              /\ poisoned' = (bad \cap StateFacets # {})
              /\ nmis' = IF bad = {} THEN nmis ELSE nmis + 1
+             /\ cnt' = Bump(cnt, Compared(ev))
              /\ \A f \in bad :
                   CSVWrite("%1$s", <<ToJson([scen |-> scen, line |-> l, facet |-> f, op |-> ev.op.op,
                                              detail |-> Explain(f, st, ns, ev)])>>, MisFile)
-             /\ (l < Len(Trace) \/ Done(nmis'))
+             /\ (l < Len(Trace) \/ Done(nmis', cnt'))
 
 Spec == Init /\ [][Next]_vars
 =============================================================================
